@@ -130,3 +130,10 @@ add("C29", "translation_validation",
     "(with and without context, and through the generic visit/transform entry points) must reach exactly the method of the concrete class, the pass-through visitor must visit every nested "
     "instance once, over_X_or_empty must equal the property or the empty iteration.",
     "Finite family of shapes: the solver mostly enumerates (stated). X_or_default accessors are not emitted by the Python generator for any corpus model, so that clause is vacuous here.")
+
+add("C30", "translation_validation",
+    "bounded symbolic execution (CrossHair/z3) of the generated X_from_str on symbolic texts (short texts and one-edit neighbours of every declared value) + concrete comparison of generated constants/sets/enumerations with the exec'd meta-model source",
+    "The REAL generator emits the SDK; every primitive constant, every constant set (own literals plus the literals of its declared subsets, computed from the SOURCE, not from the IR) and every "
+    "enumeration is compared with the meta-model source executed as Python; X_from_str(text) is executed on a symbolic text: it yields the literal of the declared name exactly when the text equals a "
+    "declared value, else None; literal -> text -> literal is the identity.",
+    "The constants clause is a finite comparison (weak solver role, stated); the symbolic part covers texts of <= 2 (3) code points and single-character edits of declared values.")
